@@ -213,6 +213,18 @@ fn run_scn(s: &Scn) -> Result<ProbeRun<Peek, ()>, String> {
     Ok(probe_run(&s.world, s.world.storage.clone(), ready, 20_000, |vm, pre| peek(vm, pre), |_, _, _, _| ()))
 }
 
+/// The same transaction on an interpreter that first executed a transaction listing EVERY deployed
+/// contract of the world as an input (and doing nothing): the earlier transaction's input set must
+/// not widen what this one may touch.
+fn run_scn_reused(s: &Scn) -> Result<ProbeRun<Peek, ()>, String> {
+    let mut warm = TxSpec::new(words_to_bytes(&instrs_to_words(&[op::ret(RegId::ONE)])), vec![], 100_000);
+    warm.contract_inputs = s.world.contracts.iter().map(|c| c.id).collect();
+    warm.key_seed = s.tx.key_seed ^ 0x5eed;
+    let warm = warm.build(&s.world)?;
+    let ready = s.tx.build(&s.world)?;
+    Ok(probe_run_warm(&s.world, s.world.storage.clone(), vec![warm], ready, 20_000, |vm, pre| peek(vm, pre), |_, _, _, _| ()))
+}
+
 fn coq_touches(l: &mut Lits, ev: &[StorageEvent]) -> String {
     let mut seen = BTreeSet::new(); let mut out = vec![];
     for e in ev { if let Some((t, c, a)) = touch_of(e) { if seen.insert((t, c, a)) { out.push(format!("({t}, {}, {a})", l.k(c.as_ref()))); } } }
@@ -361,6 +373,23 @@ fn process_tx(out: &mut Out, s: &Scn, idx: usize) {
         _ => out.count("vmtrace-trace-failed"),
     }
     let (foreign, refusals) = oracle_tx(out, s, &r, &replay);
+    // the same transaction on a reused interpreter whose previous transaction listed every deployed contract
+    match guarded(|| run_scn_reused(s)) {
+        Ok(Ok(r2)) => {
+            let mut rj = replay.clone(); rj["reused_after_all_contracts_warmup"] = json!(true);
+            let _ = oracle_tx(out, s, &r2, &rj);
+            let sig = |r: &ProbeRun<Peek, ()>| r.steps.iter().map(|(pre, _, post, _)| (pre.pc, pre.raw, post.outcome.name())).collect::<Vec<_>>();
+            out.oracle_evaluations += 1;
+            if sig(&r) != sig(&r2) {
+                let (a, b) = (sig(&r), sig(&r2));
+                let k = a.iter().zip(b.iter()).position(|(x, y)| x != y).unwrap_or(a.len().min(b.len()));
+                out.oracle_fail("reused-vm-run-differs-from-fresh-vm", &format!("tx {idx}: first difference at step {k}: fresh {:?} / reused {:?}", a.get(k), b.get(k)), rj);
+            }
+            out.count("reused-vm-runs");
+        }
+        Ok(Err(e)) => { out.count("reused-build-error"); if out.notes.len() < 5 { out.notes.push(format!("tx {idx} (reused): {e}")); } }
+        Err(p) => { out.oracle_fail("host-panic", &format!("tx {idx} (reused vm): host panic {p}"), replay.clone()); }
+    }
     let mut ops: BTreeMap<String, u64> = BTreeMap::new();
     let mut touches = 0u64;
     for (pre, p, post, _) in &r.steps {
